@@ -2,6 +2,7 @@ import Tpp.Driver.Proto
 import Tpp.Model.Strings
 import Tpp.Model.StringOps
 import Tpp.Model.Ctors
+import Tpp.Model.Printers
 import Tpp.Ref.Render
 /-!
 Driver slice `Strings` (C17).
@@ -14,8 +15,10 @@ Driver slice `Strings` (C17).
        `ci r n <elems>` string(first, last)   `il r n <elems>` string{…} (n ≤ 3)   `ts r <hex>` ""_ts
        `ae r <elem>` r += elem   `as r q` r += q   `pe r q <elem>` r = q + elem   `ps r q t` r = q + t
        `ie r pos <elem>` insert   `ir r pos q a b` range insert   `ea r` erase()   `ef r pos` erase(it)   `er r a b` erase(it, it)
-       `sw r q` swap   `ix r i <elem>` r[i] = elem
-     → per register `<size> <to_string hex> ; <elem> ; <elem> …`, joined by ` | `, then ` # k=1` (accessors agree)
+       `sw r q` swap   `ix r i <elem>` r[i] = elem   `ob r` to_string(r) taken at that point (an observation)
+     → per register `<size> <to_string hex> ; <elem> ; <elem> …`, joined by ` | `, then ` # k=1` (accessors agree), then ` # obs <hex> <hex> …` (the mid-program observations)
+  `Q <colour> <state bits>`      `out << colour` on a stream in a non-default formatting state → `<text hex> <text hex>` (via the
+                                 variant / directly); bits: 1 hex, 2 oct, 4 left, 8 internal, 16 showbase, 32 showpos, 64 uppercase, 128 fill
   `G g1 b cs` glyph(byte, charset)   `G g2 t0` / `G g3 t0 t1` / `G g4 t0 t1 t2` glyph(char8_t const(&)[n])
   `G gp <hex>` glyph(char const*) on that memory followed by three NULs   `G e1 b <attr>` element(byte, attribute)
      → the glyph / element, then ` / <to_string of a one-element string holding it>`
@@ -50,6 +53,7 @@ def rdSeqOp : Rd (Option (SeqOp Element)) := do
   | "er" => do let r ← R; let a ← Rd.num; let b ← Rd.num; return some (.eraseRange r a b)
   | "sw" => do let r ← R; let q ← R; return some (.swap r q)
   | "ix" => do let r ← R; let i ← Rd.num; let e ← rdElement; return some (.setAt r i e)
+  | "ob" => do let r ← R; return some (.obs r)
   | _ => return none
 
 def parseProgram (rest : String) : List (SeqOp Element) :=
@@ -58,9 +62,17 @@ def parseProgram (rest : String) : List (SeqOp Element) :=
 def showReg (es : List Element) : String :=
   s!"{es.length} {hex (TString.toString es)}" ++ String.join (es.map fun e => " ; " ++ showElement e)
 
+/-- the observations made in mid-program (`ob r` = `to_string(r)` at that point), in program order -/
+def observations {α} (text : List α → List Byte) : Regs α → List (SeqOp α) → List String
+  | _, [] => []
+  | g, .obs r :: ops => hex (text (g r)) :: observations text g ops
+  | g, op :: ops => observations text (op.apply g) ops
+
 def runProgram (rest : String) : String :=
-  let g := SeqOp.run (fun _ => []) (parseProgram rest)
-  " | ".intercalate ((List.range 4).map fun k => showReg (g k)) ++ " # k=1"
+  let ops := parseProgram rest
+  let g := SeqOp.run (fun _ => []) ops
+  " | ".intercalate ((List.range 4).map fun k => showReg (g k)) ++ " # k=1 # " ++
+    " ".intercalate ("obs" :: observations TString.toString (fun _ => []) ops)
 
 def run (kind : Char) (rest : String) : Option String :=
   match kind with
@@ -76,6 +88,10 @@ def run (kind : Char) (rest : String) : Option String :=
     let out := (step (rdBehaviour bits) {} (.writeString es)).2
     some s!"{hex out} / {hex (TString.toString es)}"
   | 'P' => some (runProgram rest)
+  | 'Q' =>
+    -- `Q <colour> <state bits>`: the text `out << colour` appends (through the variant and directly), whatever the state
+    let (c, _) := rdColour.run (words rest)
+    some s!"{hex (showColourText c)} {hex (showColourText c)}"
   | 'G' =>
     let ws := words rest
     let nums := (ws.drop 1).map fun w => w.toNat?.getD 0
@@ -148,6 +164,20 @@ def oracle (kind : Char) (_cfg rest real : String) : Option String :=
       else if decomp (w.length + es.length + 2) w texts then some "ok"
       else some s!"FAIL C17 wire {wire} is not control functions interleaved with the glyph bytes {expect}"
     | _ => some "FAIL C17 unreadable answer"
+  | 'Q' =>
+    -- C19: a palette colour built from components / a shade streams as `#rgb` / `#NN` in decimal, in every stream state
+    let (c, _) := rdColour.run (words rest)
+    let expect : Option (List Byte) := match c with
+      | .high v => if 16 ≤ v.toNat then
+          let n := v.toNat - 16
+          some [0x23, UInt8.ofNat (48 + n / 36), UInt8.ofNat (48 + n / 6 % 6), UInt8.ofNat (48 + n % 6)] else none
+      | .grey v => if 232 ≤ v.toNat then
+          let n := v.toNat - 232
+          some [0x23, UInt8.ofNat (48 + n / 10), UInt8.ofNat (48 + n % 10)] else none
+      | _ => none
+    match expect with
+    | none => some "ok"
+    | some t => some (if words real = [hex t, hex t] then "ok" else s!"FAIL C19 streamed form of the colour is [{real}], expected {hex t}")
   | 'G' =>
     -- the text of the constructed glyph is the character it was constructed from (documented uses only:
     -- one well-formed NUL-terminated character for the pointer and array constructors)
@@ -182,8 +212,10 @@ def oracle (kind : Char) (_cfg rest real : String) : Option String :=
       | .setAt _ _ e => glyphValid e.glyph | _ => true
     if !allValid then some "ok" else
     let texts := SeqOp.run (fun _ => ([] : List (List Byte))) (ops.map (SeqOp.map fun e => e.glyph.text))
+    let expObs := "obs" :: observations (fun (ts : List (List Byte)) => ts.flatten) (fun _ => []) (ops.map (SeqOp.map fun e => e.glyph.text))
     match real.splitOn " # " with
-    | [body, k] =>
+    | [body, k, obs] =>
+      if words obs ≠ expObs then some s!"FAIL C17 to_string taken in mid-program: got [{obs}], the text at those points was [{" ".intercalate expObs}]" else
       let regs := body.splitOn " | "
       if regs.length ≠ 4 then some "FAIL C17 unreadable answer" else
       let bad := (List.range 4).filterMap fun i =>
